@@ -269,7 +269,7 @@ def run_case(ctx, case, rng):
 
 def make_tree(rng):
     dens = rng.choice([0.0, 0.0, 0.15, 0.4, 0.8, 1.0])
-    pools = gen.Pools(p_punct=dens, pos=gen.POS + ['PRELS'],
+    pools = gen.Pools(p_punct=dens, pos=gen.POS + ['PRELS', 'PRELSAT'],
                       edges=['HD', 'NK', 'SB', 'OA', '--', '--'])
     n = rng.choice([1, 2, 3, 4, 5, 7, 10]) if rng.random() < 0.7 \
         else rng.randint(1, 25)
